@@ -125,6 +125,8 @@ PACKED_TYPES = [
 WIRE_VARINT = 0
 WIRE_FIXED_64 = 1
 WIRE_LEN_DELIM = 2
+WIRE_START_GROUP = 3
+WIRE_END_GROUP = 4
 WIRE_FIXED_32 = 5
 
 # Mappings of which Proto 3 types correspond to which wire types.
@@ -645,32 +647,59 @@ class ParsedField:
     raw: bytes
 
 
+def _read_exactly(stream: "SupportsRead[bytes]", size: int) -> bytes:
+    """Read ``size`` bytes of payload or fail: a short read means truncated input."""
+    data = stream.read(size)
+    if len(data) != size:
+        raise EOFError(
+            f"Stream ended unexpectedly: expected {size} bytes of payload, got {len(data)}."
+        )
+    return data
+
+
+def _load_field(stream: "SupportsRead[bytes]") -> Optional[ParsedField]:
+    """Load one field, or return ``None`` at a clean end of input (before a tag)."""
+    first = stream.read(1)
+    if not first:
+        return None
+    if first[0] & 0x80:
+        # multi-byte tag: the input must not end in the middle of it
+        rest, raw = load_varint(stream)
+        num_wire, raw = (first[0] & 0x7F) | (rest << 7), first + raw
+    else:
+        num_wire, raw = first[0], first
+    number = num_wire >> 3
+    wire_type = num_wire & 0x7
+    if number == 0:
+        raise ValueError("Invalid field number 0.")
+
+    decoded: Any = None
+    if wire_type == WIRE_VARINT:
+        decoded, r = load_varint(stream)
+        raw += r
+    elif wire_type == WIRE_FIXED_64:
+        decoded = _read_exactly(stream, 8)
+        raw += decoded
+    elif wire_type == WIRE_LEN_DELIM:
+        length, r = load_varint(stream)
+        decoded = _read_exactly(stream, length)
+        raw += r
+        raw += decoded
+    elif wire_type == WIRE_FIXED_32:
+        decoded = _read_exactly(stream, 4)
+        raw += decoded
+    elif wire_type not in (WIRE_START_GROUP, WIRE_END_GROUP):
+        raise ValueError(f"Invalid wire type {wire_type}.")
+
+    return ParsedField(number=number, wire_type=wire_type, value=decoded, raw=raw)
+
+
 def load_fields(stream: "SupportsRead[bytes]") -> Generator[ParsedField, None, None]:
     while True:
-        try:
-            num_wire, raw = load_varint(stream)
-        except EOFError:
+        field = _load_field(stream)
+        if field is None:
             return
-        number = num_wire >> 3
-        wire_type = num_wire & 0x7
-
-        decoded: Any = None
-        if wire_type == WIRE_VARINT:
-            decoded, r = load_varint(stream)
-            raw += r
-        elif wire_type == WIRE_FIXED_64:
-            decoded = stream.read(8)
-            raw += decoded
-        elif wire_type == WIRE_LEN_DELIM:
-            length, r = load_varint(stream)
-            decoded = stream.read(length)
-            raw += r
-            raw += decoded
-        elif wire_type == WIRE_FIXED_32:
-            decoded = stream.read(4)
-            raw += decoded
-
-        yield ParsedField(number=number, wire_type=wire_type, value=decoded, raw=raw)
+        yield field
 
 
 def parse_fields(value: bytes) -> Generator[ParsedField, None, None]:
